@@ -72,11 +72,15 @@ def sim_cases(draw):
     off = 0
 
     def next_t(t):
-        mode = draw(st.integers(0, 3))
+        mode = draw(st.integers(0, 4))
         if mode <= 1:
             return t + draw(st.integers(0, 12)) * 1e-6          # between two reader syscalls
         if mode == 2:
             return t + draw(st.sampled_from([0.1, 0.5, 0.999, 1.001, 1.7])) * T
+        if mode == 3:
+            # a few microseconds after a timed wait of the reader expires (its waits start within a few
+            # microseconds of multiples of T): between the expiry and the liveness check that follows it
+            return max(t, draw(st.integers(1, 3)) * T + draw(st.integers(0, 14)) * 1e-6)
         return t
     for _ in range(nwrites):
         t = next_t(t)
@@ -307,4 +311,14 @@ def replay(case, spec=None):
         check_sim(case)
 
 
-PROBES = []
+def _probe_exit_after_timed_wait():
+    # the child writes and exits a few microseconds after the reader's first timed wait has expired
+    for off in range(0, 10):
+        t = 0.5 + off * 1e-6
+        check_sim({'kind': 'pty', 'T': 0.5, 'actions': [{'t': t, 'op': 'write', 'n': 4, 'off': 0}, {'t': t, 'op': 'exit', 'status': 0},
+                                                         {'t': t, 'op': 'close'}],
+                   'use_poll': bool(off % 2), 'size': 2000, 'style': 'rnb', 'sock_timeout': None, 'eintr': False})
+
+
+PROBES = [('probe:exit-after-timed-wait', 'output written between the expiry of a timed wait and the liveness check that '
+           'follows it is lost (EOF raised without looking again)', _probe_exit_after_timed_wait)]
